@@ -388,6 +388,18 @@ func (p *parser) parseList() (item ast.ItemNode, ok bool) {
 	// should not reach here
 }
 
+// sizedPlaceholder stands in for a data item that could not be created, after
+// the error has been reported. It reports the given size, so that no size error
+// is added on top, without holding that many values.
+type sizedPlaceholder struct {
+	ast.ItemNode
+	size int
+}
+
+func (node sizedPlaceholder) Size() int {
+	return node.size
+}
+
 func (p *parser) getDataItemValueTokens() []token {
 	tokens := []token{}
 	for {
@@ -448,7 +460,7 @@ func (p *parser) parseASCII(minLength, maxLength int) (item ast.ItemNode, ok boo
 
 			if _, ok := p.variableNames[t.val]; ok {
 				p.errorf(t, "duplicated variable name %q", t.val)
-				return ast.NewASCIINode(strings.Repeat("*", minLength)), true
+				return sizedPlaceholder{ast.NewEmptyItemNode(), minLength}, true
 			} else {
 				p.variableNames[t.val] = true
 				return ast.NewASCIINodeVariable(t.val, minLength, maxLength), true
